@@ -19,7 +19,7 @@ CHECKS = {
              '(predicted error lists) and on random longer strings whose recorded outputs TLC judges with the '
              'declarative syntax alone. Right level: the validator is a self-contained function with rich case analysis.',
         note='bounded: all strings <= 4 (quick) / <= 5 (thorough, model only) over 21 symbol classes, <= 6 over the 7-symbol class '
-             'alphabet and over {a $ { } SP U+3000 +}; longer strings sampled; the linter part samples 3 000 / 30 000 patterns under '
+             'alphabet and over {a $ { } SP U+3000 +}, <= 3 with five low-byte look-alikes; longer strings sampled; the linter part samples 3 000 / 30 000 patterns under '
              'the six filter keys plus 300 cross-kind cases; message classes recognised by anchor phrases'),
     'C18': dict(
         category='model_checking', design_ref='5 (C18), 3.3 Needs',
@@ -55,7 +55,8 @@ CHECKS = {
              'validation of hundreds of real multi-file runs under Cap 1, 2 and NumCPU with fault injection, each '
              'run also judged by measurements taken by the real child processes (alive at return, max overlap, stdin).',
         note='real goroutine interleavings are sampled with seeded delays and, for 60 / 600 TLC simulation behaviours, forced through '
-             'the hook gate; capped groups run with GOMAXPROCS above Cap; one 6.5 s tool; stand-in tools replace '
+             'the hook gate; capped groups run with GOMAXPROCS above Cap; one 6.5 s tool; one file with 72 concurrent callbacks also under '
+             'the race detector; scripts with CR LF are not generated; stand-in tools replace '
              'shellcheck/pyflakes; Cap controlled through CPU affinity; scripts stay below the pipe buffer size'),
     'C02': dict(
         category='model_checking', design_ref='5 (C02), 3.4 Emission, A.7',
